@@ -55,6 +55,7 @@ fn main() {
         "C03" => props::c03::run(rest),
         "C04" => props::c04::run(rest),
         "C05" => props::c05::run(rest),
+        "C07" => props::c07::run(rest),
         "C08" => props::c08::run(rest),
         "C09" => props::c09::run(rest),
         "C11" => props::c11::run(rest),
